@@ -148,6 +148,8 @@ func poolLifetime(c *core.Ctx) {
 					}
 				}
 				c.Check(fresh, rule, key, call.Pos(), "closes the connection it just dialled and did not insert", "Session.client closes an endpoint that is not the one it just dialled")
+			case isPrivateHelper(c, fn) && closesFreshOfCaller(c, fn, clientFn, cc.Value):
+				c.Pass(rule, key, call.Pos(), "a helper of Session.client closes the connection client just dialled and handed to it")
 			default:
 				c.Fail(rule, key, call.Pos(), "a connection that may be in the session's pool (and shared by other proxies and goroutines) is closed outside Terminate: their in-flight requests fail and the session dials again (more than one connection per endpoint over time)")
 			}
@@ -171,31 +173,57 @@ func poolLifetime(c *core.Ctx) {
 			}
 		}
 	}
-	for i, call := range core.Calls(clientFn) {
-		cc := call.Common()
-		if !(cc.IsInvoke() && (cc.Method.Name() == "AddHandler" || cc.Method.Name() == "MakeHandler")) || len(cc.Args) != 3 {
-			continue
-		}
-		cl, _ := funcValue(cc.Args[2])
-		if cl == nil {
-			continue
-		}
-		nDels := 0
-		for _, u := range unitOf(c, cl) {
-			_, dels := mapWrites(u, poll)
-			nDels += len(dels)
-		}
-		if nDels == 0 {
-			continue
-		}
-		key := fmt.Sprintf("evicting-handler@%s#%d", core.FuncKey(clientFn), i)
-		after := false
-		for _, up := range ups {
-			if core.Dominates(up, call.(ssa.Instruction)) {
-				after = true
+	// afterInsert: at (in f) is only reached after the pool insert — made in f, in a helper
+	// f called before, or by every caller of the private helper f before it called f
+	sitesAll, _ := c.CallSites()
+	var afterInsert func(f *ssa.Function, at ssa.Instruction, depth int) bool
+	afterInsert = func(f *ssa.Function, at ssa.Instruction, depth int) bool {
+		for _, up := range mapWritesUp(f, poll) {
+			if core.Dominates(up, at) {
+				return true
 			}
 		}
-		c.Check(after, rule, key, call.Pos(), "registered after poll[addr] = c", "the handler whose closer deletes poll[addr] is registered before the connection is inserted in the pool: when two goroutines dial the same endpoint the loser closes its connection, its closer fires and evicts the winner's entry, and later requests dial again")
+		for _, call := range core.Calls(f) {
+			if h := core.StaticCallee(call); h != nil && h != f && isPrivateHelper(c, h) && core.Dominates(call.(ssa.Instruction), at) && call.(ssa.Instruction) != at {
+				for _, u := range unitOf(c, h) {
+					if len(mapWritesUp(u, poll)) > 0 {
+						return true
+					}
+				}
+			}
+		}
+		if depth > 2 || f == clientFn || !isPrivateHelper(c, f) || len(sitesAll[f]) == 0 {
+			return false
+		}
+		for _, cs := range sitesAll[f] {
+			if !afterInsert(cs.Parent(), cs.(ssa.Instruction), depth+1) {
+				return false
+			}
+		}
+		return true
+	}
+	_ = ups
+	for _, g := range unitOf(c, clientFn) {
+		for i, call := range core.Calls(g) {
+			cc := call.Common()
+			if !(cc.IsInvoke() && (cc.Method.Name() == "AddHandler" || cc.Method.Name() == "MakeHandler")) || len(cc.Args) != 3 {
+				continue
+			}
+			cl, _ := funcValue(cc.Args[2])
+			if cl == nil {
+				continue
+			}
+			nDels := 0
+			for _, u := range unitOf(c, cl) {
+				_, dels := mapWrites(u, poll)
+				nDels += len(dels)
+			}
+			if nDels == 0 {
+				continue
+			}
+			key := fmt.Sprintf("evicting-handler@%s#%d", core.FuncKey(g), i)
+			c.Check(afterInsert(g, call.(ssa.Instruction), 0), rule, key, call.Pos(), "registered after poll[addr] = c", "the handler whose closer deletes poll[addr] is registered before the connection is inserted in the pool: when two goroutines dial the same endpoint the loser closes its connection, its closer fires and evicts the winner's entry, and later requests dial again")
+		}
 	}
 }
 
@@ -363,6 +391,14 @@ func singleInsert(c *core.Ctx, lc *core.LockCache) {
 				c.Check(good, rule, dupKey, pos, "duplicate branch closes the new endpoint and returns the pooled client", why)
 				continue
 			}
+			// the insert lives in a helper that deals with the duplicate itself: its own
+			// duplicate branch closes the new endpoint and returns the pooled client
+			if isPrivateHelper(c, fn) {
+				if good2, _, pos2 := dupBranch(fn, core.IsTrue(okOf), isFound, witness, true); good2 {
+					c.Pass(rule, dupKey, pos2, "the inserting helper closes the new endpoint on its duplicate branch and returns the pooled client")
+					continue
+				}
+			}
 			// the insert lives in a helper: it returns the pooled client with a flag
 			// telling the two outcomes apart; Session.client closes the fresh
 			// connection and returns that client where the flag says "already pooled"
@@ -448,4 +484,48 @@ func outcomeFlag(fn *ssa.Function, onDup core.EdgeMatcher) (int, bool, bool) {
 func mapWritesUp(fn *ssa.Function, fld *types.Var) []*ssa.MapUpdate {
 	ups, _ := mapWrites(fn, fld)
 	return ups
+}
+
+// closesFreshOfCaller: ep is param.EndPoint() for a parameter of the private
+// helper fn, and every call site of fn is in clientFn and passes, for that
+// parameter, the channel SelectEndPoint just returned.
+func closesFreshOfCaller(c *core.Ctx, fn, clientFn *ssa.Function, ep ssa.Value) bool {
+	cr, _ := core.CallResult(core.Canon(ep))
+	var p *ssa.Parameter
+	if cr != nil && cr.Common().IsInvoke() && cr.Common().Method.Name() == "EndPoint" {
+		p, _ = core.Canon(cr.Common().Value).(*ssa.Parameter)
+	} else {
+		p, _ = core.Canon(ep).(*ssa.Parameter) // the end point itself handed over
+	}
+	if p == nil || p.Parent() != fn {
+		return false
+	}
+	idx := -1
+	for i, q := range fn.Params {
+		if q == p {
+			idx = i
+		}
+	}
+	sites, taken := c.CallSites()
+	if idx < 0 || taken[fn] || len(sites[fn]) == 0 {
+		return false
+	}
+	for _, cs := range sites[fn] {
+		if cs.Parent() != clientFn || idx >= len(cs.Common().Args) {
+			return false
+		}
+		a := core.Canon(cs.Common().Args[idx])
+		if cr2, _ := core.CallResult(a); cr2 != nil && cr2.Common().IsInvoke() && cr2.Common().Method.Name() == "EndPoint" {
+			a = core.Canon(cr2.Common().Value)
+		}
+		e, ok := a.(*ssa.Extract)
+		if !ok {
+			return false
+		}
+		sc, ok := e.Tuple.(*ssa.Call)
+		if !ok || sc.Call.StaticCallee() == nil || sc.Call.StaticCallee().Name() != "SelectEndPoint" {
+			return false
+		}
+	}
+	return true
 }
